@@ -67,6 +67,7 @@ class C17(Check):
         self.oracle_dropped = 0
         self.oracle_bad = []
         self._treeerr = set()
+        self._hdr_cache = {}
         self.compiler_runs = 0
         self.compiler_bad = []
         self._wfx_only = set()
@@ -109,6 +110,13 @@ class C17(Check):
             self.hist["compilable"] = self.hist.get("compilable", 0) + 1
             for f in G.features(text):
                 self.hist["features"][f] = self.hist["features"].get(f, 0) + 1
+        # (2c) include chains: Fortran source -> headers with C-family extensions in a directory OUTSIDE the code-base
+        # root, 2-3 levels deep; the language must be inherited along the whole chain (observed through finder.find)
+        ni = 120 if self.tier == "quick" else 2000
+        for i in range(ni):
+            text, hdrs = G.gen_include_case(self.rng)
+            out.append([text, G.gen_defsets(self.rng), hdrs])
+            self.hist["include_chains"] = self.hist.get("include_chains", 0) + 1
         # (3) malformed stream
         m = 400 if self.tier == "quick" else 8000
         for i in range(m):
@@ -132,6 +140,8 @@ class C17(Check):
         _setup()
         from codebasin import preprocessor
         from codebasin.file_parser import FileParser
+        if len(case) == 3:
+            return self._impl_inc(case)
         text, defsets = case
         self._n += 1
         root = common.scratch() / "c17"
@@ -183,8 +193,91 @@ class C17(Check):
                 sel.append(sorted(s))
         return ["Ok", nodes, sel]
 
+    # ------------------------------------------------------------------ include chains
+    @staticmethod
+    def _nodes_of(tree):
+        from codebasin import preprocessor
+        return [[0 if type(n) is preprocessor.CodeNode else 1, list(n.lines)]
+                for n in tree.walk() if isinstance(n, preprocessor.CodeNode)]
+
+    def _impl_inc(self, case):
+        """["Ok", nodes(main), sel(main), [[name, nodes or None, sel], ...]] through finder.find only."""
+        _setup()
+        import codebasin
+        from codebasin import finder, preprocessor
+        text, defsets, hdrs = case
+        self._n += 1
+        root = common.scratch() / "c17"
+        inc = common.scratch() / "c17inc"          # NOT under the code-base root
+        root.mkdir(parents=True, exist_ok=True)
+        if inc.exists():
+            shutil.rmtree(inc)
+        inc.mkdir(parents=True)
+        f = root / ("main.f90" if self._n % 2 else "main.F90")
+        other = root / ("main.F90" if self._n % 2 else "main.f90")
+        if other.exists():
+            other.unlink()
+        with open(f, "w", newline="") as fh:
+            fh.write(text)
+        for name, t in hdrs:
+            with open(inc / name, "w", newline="") as fh:
+                fh.write(t)
+        cfg = {f"P{i}": [{"file": str(f), "defines": list(d), "include_paths": [str(inc)], "include_files": []}]
+               for i, d in enumerate(defsets)}
+        try:
+            cb = codebasin.CodeBase(root)
+            state = finder.find(str(root), cb, cfg)
+        except (AttributeError, IndexError, preprocessor.ParseError, preprocessor.TokenError):
+            # unbalanced conditionals / directive text the Lexer rejects: C01-C05's subject
+            self._treeerr.add(self.key(case))
+            self.hist["tree_errors_skipped"] += 1
+            return ["TreeErr"]
+        except Exception as e:  # noqa
+            self.hist["impl_errors"] += 1
+            return ["Err", type(e).__name__]
+
+        def sel_of(path):
+            tree = state.get_tree(path)
+            amap = state.get_map(path)
+            out = []
+            for i in range(len(defsets)):
+                s = []
+                for n in tree.walk():
+                    if type(n) is preprocessor.CodeNode and f"P{i}" in amap[n]:
+                        s += list(n.lines)
+                out.append(sorted(s))
+            return out
+        parsed = set(state.get_filenames())
+        res = []
+        for name, t in hdrs:
+            hp = os.path.realpath(inc / name)
+            if hp in parsed:
+                res.append([name, self._nodes_of(state.get_tree(hp)), sel_of(hp)])
+            else:
+                res.append([name, None, [[] for _ in defsets]])
+        return ["Ok", self._nodes_of(state.get_tree(str(f))), sel_of(str(f)), res]
+
+    def _hdr_answer(self, text):
+        """Driver answer (M, S) for a header text, cached."""
+        if text not in self._hdr_cache:
+            self._hdr_cache[text] = common.run_model("C17", ["#" + text.encode("latin-1", errors="replace").hex()])[0]
+        return self._hdr_cache[text]
+
+    def _m_nodes(self, ans):
+        m = ans[0]
+        return ["Err", "RuntimeError"] if m[0] == "Err" else [[d, list(ls)] for d, ls in m[1]]
+
     # ------------------------------------------------------------------ views
     def model_view(self, case, ans):
+        if len(case) == 3:
+            if self.key(case) in self._treeerr:
+                return None
+            ms = [self._m_nodes(ans)] + [self._m_nodes(self._hdr_answer(t)) for _, t in case[2]]
+            if any(m and m[0] == "Err" for m in ms):
+                # a file of the chain is rejected by the cleaner: whether finder.find raises depends on whether a
+                # platform reaches it; such chains are outside wf and are not compared
+                return None
+            return ["Ok", ms[0], [[name, m] for (name, _), m in zip(case[2], ms[1:])]]
         if self.key(case) in self._treeerr:
             return None
         m = ans[0]
@@ -193,6 +286,10 @@ class C17(Check):
         return ["Ok", [[d, list(ls)] for d, ls in m[1]]]
 
     def impl_view_for_model(self, case, ia):
+        if ia[0] == "Ok" and len(case) == 3:
+            # a header no platform reaches is never parsed: nothing to compare there
+            return ["Ok", ia[1], [[name, nodes if nodes is not None else self._m_nodes(self._hdr_answer(t))]
+                                  for (name, nodes, _), (_, t) in zip(ia[3], case[2])]]
         if ia[0] == "Ok":
             return ["Ok", ia[1]]
         return ia
@@ -201,6 +298,15 @@ class C17(Check):
         if ia[0] != "Ok":
             return ia
         tagged = [[n, d] for d, ls in ia[1] for n in ls]      # in node order: the theorem states list equality
+        if len(case) == 3:
+            hs = []
+            for (name, nodes, sel), (_, t) in zip(ia[3], case[2]):
+                if nodes is None:
+                    tg = [[n, d] for n, d in self._hdr_answer(t)[1][1]]
+                else:
+                    tg = [[n, d] for d, ls in nodes for n in ls]
+                hs.append([name, tg, sel])
+            return ["Ok", tagged, ia[2], hs]
         return ["Ok", tagged, ia[2]]
 
     def spec(self, case, ans):
@@ -208,6 +314,8 @@ class C17(Check):
             return None
         wf, lines, wfx = ans[1]
         tagged = [[n, d] for n, d in lines]                    # in physical line order
+        if len(case) == 3:
+            return self._spec_inc(case, wf, tagged)
         if not wf and wfx:
             # well formed except for backslashes inside character literals: the class of the known finding
             self._wfx_only.add(self.key(case))
@@ -220,6 +328,66 @@ class C17(Check):
             if sel is None:
                 return ["OracleDiagnosed", tagged]
         return ["Ok", tagged, sel]
+
+    def _spec_inc(self, case, wf, tagged):
+        """The free-form scanner applied to EVERY file of the chain + gfortran's selection for every file."""
+        hs = []
+        for name, t in case[2]:
+            a = self._hdr_answer(t)
+            if isinstance(a, str) or not a[1][0]:
+                wf = False
+            else:
+                hs.append([name, [[n, d] for n, d in a[1][1]]])
+        if not wf:
+            return ["NotWF", tagged]
+        sel = self.oracle_inc(case, tagged, hs)
+        if sel is None:
+            return ["OracleDiagnosed", tagged]
+        return ["Ok", tagged, sel[0], [[name, tg, s] for (name, tg), s in zip(hs, sel[1])]]
+
+    def oracle_inc(self, case, tagged, hs):
+        k = self.key(case)
+        if k in self._oracle_cache:
+            return self._oracle_cache[k]
+        text, defsets, hdrs = case
+        d = common.scratch() / "gfi"
+        if d.exists():
+            shutil.rmtree(d)
+        (d / "inc").mkdir(parents=True)
+        (d / "o.F90").write_text(text)
+        for name, t in hdrs:
+            (d / "inc" / name).write_text(t)
+        files = [(text, tagged)] + [(t, tg) for (_, t), (_, tg) in zip(hdrs, hs)]
+        per_file = [[] for _ in files]
+        res = (None,)
+        for defs in defsets:
+            args = ["gfortran", "-cpp", "-E", "-P", "-undef", "-nostdinc", "-Iinc"] + [f"-D{x}" for x in defs] + ["o.F90"]
+            p = subprocess.run(args, cwd=d, capture_output=True, text=True)
+            self.oracle_cases += 1
+            if p.returncode != 0 or p.stderr.strip():
+                self.oracle_dropped += 1
+                per_file = None
+                break
+            for fi, (t, tg) in enumerate(files):
+                phys = t.split("\n")
+                s = []
+                for n, isdir in tg:
+                    if isdir:
+                        continue
+                    toks = G.tokens_of(phys[n - 1])
+                    if not toks:
+                        per_file = None
+                        break
+                    if toks[0] in p.stdout:
+                        s.append(n)
+                if per_file is None:
+                    break
+                per_file[fi].append(s)
+            if per_file is None:
+                break
+        out = None if per_file is None else (per_file[0], per_file[1:])
+        self._oracle_cache[k] = out
+        return out
 
     def in_domain(self, case, sa):
         ok = sa is not None and sa[0] == "Ok" and self.key(case) not in self._treeerr
@@ -267,6 +435,10 @@ class C17(Check):
     def nontrivial(self, case, ia):
         if ia[0] != "Ok":
             return False
+        if len(case) == 3:
+            # at least two headers parsed, one of them holding an uncounted (comment/blank) line
+            parsed = [(nodes, t) for (_, nodes, _), (_, t) in zip(ia[3], case[2]) if nodes is not None]
+            return len(parsed) >= 2 and any(len({n for _, ls in nodes for n in ls}) < t.count("\n") for nodes, t in parsed)
         text, defsets = case
         nlines = text.count("\n") + (0 if text.endswith("\n") or not text else 1)
         counted = {n for _, ls in ia[1] for n in ls}
@@ -284,6 +456,15 @@ class C17(Check):
         return None
 
     def shrink(self, case, still_fails):
+        if len(case) == 3:
+            text, defsets, hdrs = case
+            # shrink the innermost header's lines (keeping the chain), then the define sets
+            for hi in range(len(hdrs) - 1, -1, -1):
+                keep = lambda ls, hi=hi: still_fails([text, defsets, hdrs[:hi] + [[hdrs[hi][0], "\n".join(ls)]] + hdrs[hi + 1:]])
+                ls2 = common.shrink_list(hdrs[hi][1].split("\n"), keep, max_steps=120)
+                hdrs = hdrs[:hi] + [[hdrs[hi][0], "\n".join(ls2)]] + hdrs[hi + 1:]
+            ls2 = common.shrink_list(text.split("\n"), lambda ls: still_fails(["\n".join(ls), defsets, hdrs]), max_steps=120)
+            return ["\n".join(ls2), defsets, hdrs]
         text, defsets = case
         lines = text.split("\n")
         lines2 = common.shrink_list(lines, lambda ls: still_fails(["\n".join(ls), defsets]))
